@@ -2,8 +2,41 @@
 C47 — property theorems about the registry model (Model.lean); helper lemmas in Lemmas.lean.
 -/
 import TfelVerif.C47.LemMerge
+import TfelVerif.C47.LemEsc
 
 namespace TfelVerif.C47
+
+/-! ## (a) write then read, one string at a time (partial)
+
+Full statement (not proved in Lean, checked by correspondence on every run, byte for byte):
+  `readFile cfg (writeDesc t) = .ok t` for every description `t` whose libraries have distinct names, whose lists
+  are duplicate-free and without empty strings, whose `cppflags`/`include_directories` start with the two entries
+  every `LibraryDescription` is constructed with, whose specific targets have non-empty names, and whose strings
+  hold no backslash, no newline and — for names, prefixes, suffixes and installation paths, which are written
+  without escaping — no double quote.
+Proved here: the escaping of list elements is inverted by the reader (`unescape_escape`), and an escaped element
+without backslash is tokenized as exactly one string token whose content is read back as the element
+(`written_element_read_back`). Missing: the composition over the whole file (keywords, braces, the reader loops).
+-/
+
+/-- (a, partial) the reader's unescaping inverts the writer's escaping, for every string -/
+theorem unescape_escape_id (s : Str) : unescape (escape s) = s := unescape_escape s
+
+open TfelVerif.C31 in
+/-- (a, partial) a list element `s` without backslash, written as `"escape s"` and followed by anything, is
+    read by the tokenizer model as one string token (`parseString` consumes exactly the written text), and
+    `readString` + unescaping of that token gives back `s` -/
+theorem written_element_read_back (s rest : Str) (h : '\\' ∉ s) :
+    parseString '"' (quoted (escape s) ++ rest) = .ok (quoted (escape s), rest) ∧
+    ∀ (n o : Nat) (ts : List Tok), (readString (⟨quoted (escape s), n, o, .string, []⟩ :: ts)).map
+      (fun p => (unescape p.1, p.2)) = .ok (s, ts) := by
+  constructor
+  · have := parseString_str (items s) (items_ok s h) rest
+    rw [bodyText_items] at this
+    simpa [quoted] using this
+  · intro n o ts
+    have hlen : ¬ ((escape s).length + 1 + 1 < 2) := by omega
+    simp [readString, hlen, quoted, Except.map, unescape_escape]
 
 /-! ## (b) merge is a union -/
 
